@@ -179,6 +179,7 @@ type httpCase struct {
 	ReqCtx   string // Background TODO Cancellable Values Deadline Custom CustomDone
 	ExecCtx  string // Background Cancellable Custom
 	Stack    string // retry retry+timeout retry+breaker fallback+retry
+	RetryCfg string // "" (the default builder) | delay (WithDelay 50ms) | backoff (WithBackoff 10ms..500ms) besides the Retry-After delay function
 }
 
 type httpObs struct {
@@ -206,7 +207,14 @@ func runHTTPCase(t *testing.T, c httpCase) (o httpObs) {
 	synctest.Test(t, func(t *testing.T) {
 		t0 := time.Now()
 		rt := &scriptedRT{script: c.Script, t0: t0, level: c.Level}
-		rp := failsafehttp.RetryPolicyBuilder().Build()
+		rpb := failsafehttp.RetryPolicyBuilder()
+		switch c.RetryCfg {
+		case "delay":
+			rpb = rpb.WithDelay(50 * time.Millisecond)
+		case "backoff":
+			rpb = rpb.WithBackoff(10*time.Millisecond, 500*time.Millisecond)
+		}
+		rp := rpb.Build()
 		var pols []failsafe.Policy[*http.Response]
 		switch c.Stack {
 		case "retry+timeout":
@@ -327,10 +335,21 @@ func errKindHTTP(err error) string {
 	}
 }
 
+func rcfgGallina(k string) string {
+	switch k {
+	case "delay":
+		return "(50000000, 0)"
+	case "backoff":
+		return "(10000000, 500000000)"
+	}
+	return "(0, 0)"
+}
+
 func genHTTPCase(r *Rng) httpCase {
 	c := httpCase{Level: Pick(r, []string{"rt", "client"}), BodyKind: Pick(r, []string{"None", "Seeker", "Stream", "Stream"}),
 		ReqCtx: Pick(r, []string{"Background", "TODO", "Cancellable", "Values", "Deadline", "Custom"}), ExecCtx: Pick(r, []string{"Background", "Background", "Cancellable", "Custom"}),
 		Stack: Pick(r, []string{"retry", "retry", "retry+timeout", "retry+breaker", "fallback+retry"})}
+	c.RetryCfg = Pick(r, []string{"", "", "delay", "backoff", "backoff"})
 	c.Body = strings.Repeat("payload-", Pick(r, []int{0, 1, 8192, 131072}))
 	if c.BodyKind == "None" {
 		c.Body = ""
@@ -665,17 +684,18 @@ func driveAdapters(t *testing.T, prop string) {
 		bothCtx := c.ReqCtx != "Background" && (c.ExecCtx != "Background" || c.Stack == "retry+timeout")
 		sl, il := gList(ss), gList(is)
 		w.Add(func(id int) string {
-			return fmt.Sprintf("CaseHTTP %d %s %s %d %s %d %d %s %s %s %s %s %s %d %d %s", id, sl, gBool(c.Level == "client"), o.Attempts, il, o.Status,
+			return fmt.Sprintf("CaseHTTP %d %s %s %s %d %s %d %d %s %s %s %s %s %s %d %d %s", id, sl, gBool(c.Level == "client"), rcfgGallina(c.RetryCfg), o.Attempts, il, o.Status,
 				errCodeHTTP(o.ErrKind), gBool(bodiesOK), gBool(o.SameRequest), gBool(o.ValuesSeen), gBool(o.DeadlineSeen),
 				gBool(o.BodyRead == expectBody && o.BodyReadErr == ""), gBool(bothCtx), o.Opened, o.Closed, gBool(o.Leak != ""))
 		}, map[string]any{"script": strings.Join(ss, " "), "level": c.Level, "body_kind": c.BodyKind, "body_bytes": len(c.Body), "request_context": c.ReqCtx, "executor_context": c.ExecCtx,
-			"stack": c.Stack, "attempts": o.Attempts, "attempt_instants_ns": o.Instants, "returned_status": o.Status, "returned_error": o.ErrKind, "every_attempt_full_body": bodiesOK,
+			"stack": c.Stack, "retry_delay_config": c.RetryCfg, "attempts": o.Attempts, "attempt_instants_ns": o.Instants, "returned_status": o.Status, "returned_error": o.ErrKind, "every_attempt_full_body": bodiesOK,
 			"values_seen": o.ValuesSeen, "deadline_seen": o.DeadlineSeen, "returned_body_read_error": o.BodyReadErr, "responses_opened": o.Opened, "responses_closed": o.Closed, "leak": o.Leak},
 			o.Attempts >= 2, fmt.Sprint(c))
 		w.Stat("http_level=" + c.Level)
 		w.Stat("http_body=" + c.BodyKind)
 		w.Stat("http_reqctx=" + c.ReqCtx)
 		w.Stat("http_stack=" + c.Stack)
+		w.Stat("http_retrycfg=" + c.RetryCfg)
 		w.Stat("http_attempts=" + bucket(o.Attempts))
 	}
 	driveOverlap(w, t, rng)
@@ -767,7 +787,7 @@ func driveAdapters(t *testing.T, prop string) {
 			true, fmt.Sprint("grpcserver", wt))
 		w.Stat("grpc_server")
 	}
-	w.Close("(1) requests through failsafehttp.NewRoundTripper and NewRequest with a scripted in-memory transport inside a virtual-time bubble: scripts of 1-4 server behaviours (statuses 200/404/429/500/501/502/503, Retry-After seconds, connection / scheme / certificate / redirect / authority / cancellation errors), bodies none / seekable / stream of 0-1MiB, request context Background/TODO/cancellable/with values/with deadline, executor context Background/cancellable, stacks retry / retry+timeout / retry+breaker / fallback+retry; observed per attempt: instant, method, URL, header, body bytes, context value and deadline; returned status or error, readability of the returned body (the transport's body fails once its request context is done), responses opened/closed, goroutines still blocked one hour after the call returned (bubble leak oracle); (1b) attempts that overlap in time (a hedge started while earlier attempts are half-way through the body; a timed-out attempt whose transport drains the rest of the body in the middle of its retry) with stream / buffer / bytes.Reader / seekable bodies of 2 B-70 kB: bytes received by every attempt; (2) the body reader called directly for every body kind, size and already-consumed prefix, three attempts each; (3) the gRPC client and server interceptors with scripted status codes, arguments, reply and metadata. Non-trivial = at least two attempts / every body and gRPC case; distinct by inputs.", nil)
+	w.Close("(1) requests through failsafehttp.NewRoundTripper and NewRequest with a scripted in-memory transport inside a virtual-time bubble: scripts of 1-4 server behaviours (statuses 200/404/429/500/501/502/503, Retry-After seconds, connection / scheme / certificate / redirect / authority / cancellation errors), bodies none / seekable / stream of 0-1MiB, request context Background/TODO/cancellable/with values/with deadline, executor context Background/cancellable, stacks retry / retry+timeout / retry+breaker / fallback+retry, the retry policy being the default builder's or additionally configured with WithDelay(50ms) / WithBackoff(10ms, 500ms); observed per attempt: instant, method, URL, header, body bytes, context value and deadline; returned status or error, readability of the returned body (the transport's body fails once its request context is done), responses opened/closed, goroutines still blocked one hour after the call returned (bubble leak oracle); (1b) attempts that overlap in time (a hedge started while earlier attempts are half-way through the body; a timed-out attempt whose transport drains the rest of the body in the middle of its retry) with stream / buffer / bytes.Reader / seekable bodies of 2 B-70 kB: bytes received by every attempt; (2) the body reader called directly for every body kind, size and already-consumed prefix, three attempts each; (3) the gRPC client and server interceptors with scripted status codes, arguments, reply and metadata. Non-trivial = at least two attempts / every body and gRPC case; distinct by inputs.", nil)
 }
 
 func errCodeHTTP(k string) int {
